@@ -152,11 +152,11 @@ def first_divergence_s(iobs, mobs, proj=FULL_S):
     return None
 
 
-def gen_scenario(seed, algo, nticks=None, contended=None, tps_choices=(1, 2, 4, 8, 16), laws=("const",), zero_frac=0.03):
+def gen_scenario(seed, algo, nticks=None, contended=None, tps_choices=(1, 2, 4, 8, 16), laws=("const",), zero_frac=0.03, pp_multi_only=True):
     rng = random.Random(seed)
     tps = rng.choice(tps_choices)
     npools = 2 if algo == "priority-pool" else rng.choice([1, 1, 2, 3, 4])
-    cfg = {"tps": tps, "multi": True if algo == "priority-pool" else (False if algo in ("template", "overbook") and rng.random() < 0.5 else rng.random() < 0.6),
+    cfg = {"tps": tps, "multi": True if (algo == "priority-pool" and pp_multi_only) else (False if algo in ("template", "overbook") and rng.random() < 0.5 else rng.random() < 0.6),
            "over": algo == "overbook", "npools": npools, "cpus": rng.choice([1, 2, 4, 8, 16, 64]),
            "ram": fstr(rng.choice([F(1, 2), 2, 8, 32, 64, 100, 256]))}
     if algo == "overbook":
